@@ -52,6 +52,11 @@ package dagsync
 //@   ensures-local before("close:closing", "wg.wait:expSyncWG") && before("wg.wait:expSyncWG", "wg.wait:asyncWG") && before("wg.wait:asyncWG", "close:inEvents")
 //@   ensures-local count("call:Close") >= 1 ==> before("wg.wait:expSyncWG", "call:Close") && before("call:Close", "recv:watchDone") && before("recv:watchDone", "wg.wait:asyncWG")
 //@   ensures s.expSyncClosed
+// Close never waits for running syncs while holding the mutex every explicit sync call takes first: a sync
+// that is waited for may call back into the subscriber (block hooks do), and that call must get its
+// shutdown error instead of blocking behind Close.
+//@   at call Wait: assert !held(s.expSyncMutex)
+//@   ensures-local !held(s.expSyncMutex)
 
 // Registering a listener must not block forever once the subscriber is closed.
 //@ func (*Subscriber).OnSyncFinished
@@ -127,8 +132,14 @@ package dagsync
 //@   ensures depth >= 1 ==> result.mode == 1 && result.depth == depth
 
 // handle is used here through its contract (its body is C08/C01): any failure is reported as (0, err).
+// C14: the hook installed for a sync counts every block it is given, exactly once each.
+//@ func (*handler).handle$1
+//@   property C14
+// (the caller's block hook cannot reach the counter: a local of handle that only this closure captures)
+//@   ensures old(syncedCount) < 9223372036854775807 ==> syncedCount == old(syncedCount) + 1
+
 //@ func (*handler).handle
-//@   property C04 C08 C01
+//@   property C04 C08 C01 C14
 //@   requires h != nil && h.subscriber != nil && syncer != nil && !held(h.syncMutex) && syncerOK(syncer) && ctx != nil
 //@   requires h.subscriber.scopedBlockHook != nil && h.subscriber.scopedBlockHookMutex != nil && !held(h.subscriber.scopedBlockHookMutex)
 //@   modifies mapof(h.subscriber.scopedBlockHook)
@@ -150,6 +161,13 @@ package dagsync
 //@   at call Sync#2: after havoc syncedCount, segSync.nextSyncCid, segSync.err
 // ASSUMED: the total depth walked over all segments of one sync stays below 2^62 blocks
 //@   at call Sync#2: after assume depthSoFar + nextDepth <= 4611686018427387904
+// C14: the count returned is what the hook counted over all segments of this sync: the counter starts at
+// zero, only the callbacks made during Sync move it (nothing in between resets or adjusts it), and its
+// value after the last Sync is the result.
+//@   ghost gcount := 0
+//@   at call Sync: assert syncedCount == gcount
+//@   at call Sync: after ghost gcount := syncedCount
+//@   ensures result1 == nil ==> result0 == gcount
 //@   ghost segSync0 := zero("*cid.Cid")
 //@   at call reset#1: ghost segSync0 := segSync.nextSyncCid
 //@   at call withRecursionLimit#1: assert arg0 == sel && arg1.mode == 1 && arg1.depth == nextDepth
@@ -162,6 +180,7 @@ package dagsync
 // the stop block is never the root of a further segment (it would be fetched: the selector's stop
 // condition does not apply to the root of a traversal):
 //@   at call Sync#2: assert depthSoFar > 0 && stopAtCid != cid.Undef ==> arg2 != stopAtCid
+//@   loop 1: invariant syncedCount == gcount
 //@   loop 1: invariant depthSoFar > 0 && stopAtCid != cid.Undef ==> *segSync.nextSyncCid != stopAtCid
 //@   loop 1: invariant syncBySegment && segdl >= 1 && 1 <= nextDepth && nextDepth <= segdl && 0 <= depthSoFar
 //@   loop 1: invariant origLimit.mode == 1 ==> depthSoFar < origLimit.depth && nextDepth == min(segdl, origLimit.depth - depthSoFar) && origLimit.depth > segdl
@@ -458,3 +477,20 @@ package dagsync
 //@ func wrapBlockHook
 //@   property C08
 //@   ensures result0 != nil && result1 != nil && result2 != nil && !held(result0) && isfresh(result0) && isfresh(result1)
+
+// C01 (segmented syncs driven by the general block hook): for every block the hook asks where the chain
+// goes on, exactly once, and tells the segment controller exactly that - the previous CID on success
+// (cid.Undef included: it is what ends the sync at the end of the chain; naming no next block would leave
+// the name given for the block before in place), the error otherwise.
+//@ func MakeGeneralBlockHook$1
+//@   property C01
+//@   requires actions != nil
+//@   ghost pc := zero("cid.Cid")
+//@   ghost pe := zero("error")
+//@   at call prevAdCid#1: after ghost pc := result0
+//@   at call prevAdCid#1: after ghost pe := result1
+//@   at call SetNextSyncCid: assert pe == nil && arg1 == pc
+//@   at call FailSync: assert pe != nil && arg1 == pe
+//@   ensures-local count("call:prevAdCid") == 1
+//@   ensures-local pe == nil ==> count("call:SegmentSyncActions.SetNextSyncCid") == 1 && count("call:SegmentSyncActions.FailSync") == 0
+//@   ensures-local pe != nil ==> count("call:SegmentSyncActions.FailSync") == 1 && count("call:SegmentSyncActions.SetNextSyncCid") == 0
